@@ -126,13 +126,17 @@ def splitSub (sub : Bytes) : Bytes → Option (Bytes × Bytes)
     else (splitSub sub bs).map fun (p, r) => (b :: p, r)
 
 /-- character data with line-end normalisation applied to the literal text only (references are resolved after) -/
-def charData (raw : Bytes) : L Bytes :=
+def charDataWith (eol : Bool) (raw : Bytes) : L Bytes :=
   if containsSub [93, 93, 62] raw then ill "]]> in character data"
   else
     -- normalise first: a reference can never produce a literal CR that would be normalised
-    match resolveRefs (raw.length + 1) (normEol raw) with
+    match resolveRefs (raw.length + 1) (if eol then normEol raw else raw) with
     | some s => .ok s
     | none => ill "bad reference in character data"
+
+/-- [14] CharData with §2.11 line-end handling — the specification. (`charDataWith false` = the same reader with
+line-end normalisation switched off; the driver uses it only to *name* the class of an established failure.) -/
+def charData (raw : Bytes) : L Bytes := charDataWith true raw
 
 def skipS (b : Bytes) : Bytes := b.dropWhile isS
 
@@ -176,7 +180,7 @@ def attributes : Nat → Bytes → List (Bytes × Bytes) → L (List (Bytes × B
 def lowerAscii (b : UInt8) : UInt8 := if 65 ≤ b.toNat && b.toNat ≤ 90 then b + 32 else b
 
 /-- the lexer: `first` = nothing but an optional BOM has been read (an XMLDecl may only stand here) -/
-def lexLoop : Nat → Bytes → Bool → List Tok → L (List Tok)
+def lexLoop (eol : Bool) : Nat → Bytes → Bool → List Tok → L (List Tok)
   | 0, _, _, _ => ill "lexer fuel"
   | fuel + 1, b, first, acc =>
     match b with
@@ -184,12 +188,12 @@ def lexLoop : Nat → Bytes → Bool → List Tok → L (List Tok)
     | 60 :: 33 :: 45 :: 45 :: r =>                                   -- <!--
       match splitSub [45, 45] r with
       | none => ill "unterminated comment"
-      | some (_, 62 :: rest) => lexLoop fuel rest false (.comment :: acc)
+      | some (_, 62 :: rest) => lexLoop eol fuel rest false (.comment :: acc)
       | some _ => ill "-- inside comment"
     | 60 :: 33 :: 91 :: 67 :: 68 :: 65 :: 84 :: 65 :: 91 :: r =>      -- <![CDATA[
       match splitSub [93, 93, 62] r with
       | none => ill "unterminated CDATA section"
-      | some (c, rest) => lexLoop fuel rest false (.cdata (normEol c) :: acc)
+      | some (c, rest) => lexLoop eol fuel rest false (.cdata (if eol then normEol c else c) :: acc)
     | 60 :: 33 :: r =>                                               -- <!DOCTYPE
       if r.take 7 == [68, 79, 67, 84, 89, 80, 69] then
         match (r.drop 7).span (· ≠ 62) with
@@ -200,7 +204,7 @@ def lexLoop : Nat → Bytes → Bool → List Tok → L (List Tok)
           else
             match body with
             | s :: _ =>
-              if isS s && isName ((skipS body).takeWhile isNameChar) then lexLoop fuel rest false (.doctype :: acc)
+              if isS s && isName ((skipS body).takeWhile isNameChar) then lexLoop eol fuel rest false (.doctype :: acc)
               else ill "DOCTYPE name"
             | [] => ill "DOCTYPE name"
       else ill "unknown <! markup"
@@ -216,18 +220,18 @@ def lexLoop : Nat → Bytes → Bool → List Tok → L (List Tok)
           if first && target == [120, 109, 108] then
             match attributes (after.length + 1) after [] with
             | .ok ((n, _) :: _, false) =>
-              if n == [118, 101, 114, 115, 105, 111, 110] then lexLoop fuel rest false (.xmldecl :: acc)
+              if n == [118, 101, 114, 115, 105, 111, 110] then lexLoop eol fuel rest false (.xmldecl :: acc)
               else ill "XMLDecl without version"
             | .ok _ => ill "XMLDecl"
             | .error e => .error e
           else ill "XML declaration not at the start / reserved PI target"
-        else lexLoop fuel rest false (.pi :: acc)
+        else lexLoop eol fuel rest false (.pi :: acc)
     | 60 :: 47 :: r =>                                               -- </
       match r.span (· ≠ 62) with
       | (_, []) => ill "unterminated end tag"
       | (body, _ :: rest) =>
         let name := body.takeWhile isNameChar
-        if isName name && (body.drop name.length).all isS then lexLoop fuel rest false (.etag name :: acc)
+        if isName name && (body.drop name.length).all isS then lexLoop eol fuel rest false (.etag name :: acc)
         else ill "end tag"
     | 60 :: r =>                                                     -- <Name …> / <Name …/>
       let name := r.takeWhile isNameChar
@@ -253,26 +257,28 @@ def lexLoop : Nat → Bytes → Bool → List Tok → L (List Tok)
           match attributes (inner.length + 1) inner [] with
           | .error e => .error e
           | .ok (attrs, selfClose) =>
-            lexLoop fuel rest false ((if selfClose then Tok.empty name attrs else Tok.stag name attrs) :: acc)
+            lexLoop eol fuel rest false ((if selfClose then Tok.empty name attrs else Tok.stag name attrs) :: acc)
     | _ =>
       match b.span (· ≠ 60) with
       | (raw, rest) =>
-        match charData raw with
+        match charDataWith eol raw with
         | .error e => .error e
-        | .ok s => lexLoop fuel rest false (.chars s :: acc)
+        | .ok s => lexLoop eol fuel rest false (.chars s :: acc)
 
 def stripBom (b : Bytes) : Bytes :=
   match b with
   | 0xEF :: 0xBB :: 0xBF :: r => r
   | _ => b
 
-def lex (doc : Bytes) : L (List Tok) :=
+def lexWith (eol : Bool) (doc : Bytes) : L (List Tok) :=
   match utf8Decode doc with
   | none => ill "not UTF-8"
   | some cps =>
     let body := match cps with | 0xFEFF :: r => r | r => r
-    if body.all isXmlChar then lexLoop (doc.length + 2) (stripBom doc) true []
+    if body.all isXmlChar then lexLoop eol (doc.length + 2) (stripBom doc) true []
     else ill "illegal character"
+
+def lex (doc : Bytes) : L (List Tok) := lexWith true doc
 
 /-! ## 2. meaning of character data; the element tree -/
 
@@ -347,13 +353,15 @@ def cdataInside : List Tok → Nat → Bool
   | .cdata _ :: r, d => d > 0 && cdataInside r d
   | _ :: r, d => cdataInside r d
 
-def parse (doc : Bytes) : L Node :=
-  match lex doc with
+def parseWith (eol : Bool) (doc : Bytes) : L Node :=
+  match lexWith eol doc with
   | .error e => .error e
   | .ok toks =>
     if !prologOk toks false false then ill "misplaced DOCTYPE"
     else if !cdataInside toks 0 then ill "CDATA outside the root element"
     else buildAux (meaning toks) [] none
+
+def parse (doc : Bytes) : L Node := parseWith true doc
 
 /-! ## 4. listed differences between the s3s tables and the Smithy model -/
 
